@@ -8,7 +8,7 @@ from sim import driver, workload
 from sim.c17 import PRISTINE
 
 progs = workload.load_base()
-for name in ("wide.json", "twin.json", "fat.json", "twinagg.json"):  # all derived programs, unfiltered
+for name in ("wide.json", "twin.json", "fat.json", "twinagg.json", "dir.json"):  # all derived programs, unfiltered
     path = os.path.join(driver.VERIF, "workload", name)
     if os.path.exists(path):
         progs += json.load(open(path, encoding="utf-8"))
